@@ -16,12 +16,12 @@ def check(run):
         raise Inconclusive('vacuity twin found nothing')
     records = []
     tl = 6 if thorough else 4
-    plans = [('run, one buffer', {'entry': 'run', 'tail': tl}), ('process N=32, one byte per read', {'entry': 'process', 'chunk': 1, 'tail': tl}),
-             ('process N=32, whole stream per read', {'entry': 'process', 'chunk': 32, 'tail': 3})]
-    plans += [(f'process N=32, {c} bytes per read', {'entry': 'process', 'chunk': c, 'tail': 4 if thorough else 2}) for c in (2, 3, 5, 7)]
+    plans = [('run, one buffer', {'entry': 'run', 'tail': tl}), ('process N=64, one byte per read', {'entry': 'process', 'chunk': 1, 'tail': tl}),
+             ('process N=64, whole stream per read', {'entry': 'process', 'chunk': 64, 'tail': 3})]
+    plans += [(f'process N=64, {c} bytes per read', {'entry': 'process', 'chunk': c, 'tail': 4 if thorough else 2}) for c in (2, 3, 5, 7)]
     plans += [('two faulty messages in a row, run, one buffer', {'entry': 'run', 'tail': 1, 'double': True}),
-              ('two faulty messages in a row, process N=32, one byte per read', {'entry': 'process', 'chunk': 1, 'tail': 1, 'double': True}),
-              ('two faulty messages in a row, process N=32, 5 bytes per read', {'entry': 'process', 'chunk': 5, 'tail': 1, 'double': True})]
+              ('two faulty messages in a row, process N=64, one byte per read', {'entry': 'process', 'chunk': 1, 'tail': 1, 'double': True}),
+              ('two faulty messages in a row, process N=64, 5 bytes per read', {'entry': 'process', 'chunk': 5, 'tail': 1, 'double': True})]
     for name, params in plans:
         st = run.explore('streams [":X\\n"] faulty-message ":C;:A:Q?\\n", fault kind x position x shape, ' + name, SPEC + (params,), 600)
         records.extend(st['records'])
@@ -53,7 +53,7 @@ def confirm(run, v):
     if v['entry'] == 'run':
         case = {'entry': 'run', 'device': v['device'], 'input': v['input'], 'cap': 64, 'script': v.get('script')}
     else:
-        case = {'entry': 'process', 'device': v['device'], 'input': v['input'], 'n': 32, 'chunks': [], 'tail': v.get('chunk', 1), 'script': v.get('script')}
+        case = {'entry': 'process', 'device': v['device'], 'input': v['input'], 'n': 64, 'chunks': [], 'tail': v.get('chunk', 1), 'script': v.get('script')}
     detail = {}
     ok_all = False      # reproduced in the dev or the release profile (both recorded)
     for rel in (False, True):
